@@ -208,6 +208,11 @@ func (c *Conn) waitCloseHandshake() error {
 	}
 	defer c.readMu.unlock()
 
+	// Another reader may already have received the peer's close frame.
+	if c.closeFrameErr != nil {
+		return c.closeFrameErr
+	}
+
 	for i := int64(0); i < c.msgReader.payloadLength; i++ {
 		_, err := c.br.ReadByte()
 		if err != nil {
